@@ -109,7 +109,10 @@ def gen_c08(tier, seed):
             kinds = kinds[:-1] + ("nodl",)
         at = r.choice(ACT_TIMES)
         act = (at, r.choice("WX"), r.randrange(8)) if at else None
-        cases.append(build_c08_case("c08-%d" % idx, kinds, r.choice(TIMEOUTS), act, r, 1))
+        c = build_c08_case("c08-%d" % idx, kinds, r.choice(TIMEOUTS), act, r, 1)
+        if r.random() < 0.2:
+            c = Case(c.id, "F 0 poll 0 %d ; %s" % (40000 + r.choice([1, 5, 15, 35]), c.script), c.meta, c.sig + "/intr")
+        cases.append(c)
         idx += 1
     # a failed start with a deadline must not leave that deadline on a handle that is started again
     for stale in (30, 60, 150):
@@ -135,10 +138,15 @@ def gen_c08(tier, seed):
     for dl in (0, 10, 50, 90, 2147483647, 1):
         for to in (0, 20, 60, 200, INFINITE, DEADLINE):
             for ex in (None, 5, 25, 45, 85, 125, 215):
-                for pre in (0, 20):
+                for pre in (0, 20, -5, -15):
+                    # pre < 0: no pause, but a signal interrupts the first wait -pre ms into it
                     r = rng_for(seed, "c08w", idx)
                     o = {"dl": dl, "stop": KILL_POLICY}
                     parts = ["N 0", start_tokens(0, o)]
+                    pre0 = pre
+                    if pre < 0:
+                        parts.insert(0, "F 0 poll 0 %d" % (40000 - pre))
+                        pre = 0
                     if ex is not None:
                         parts.append("E 0 %d X %d" % (ex, r.randrange(256)))
                     if pre:
@@ -147,7 +155,7 @@ def gen_c08(tier, seed):
                     parts.append("W 0 %d" % to)
                     parts.append("D 0")
                     meta = {"handles": {0: o}, "polls": [], "wait": {"to": to, "dl": dl, "ex": ex, "pre": pre}}
-                    cases.append(Case("c08-%d" % idx, " ; ".join(parts), meta, "c08w/%s/%s/%s/%s" % (dl, to, ex, pre)))
+                    cases.append(Case("c08-%d" % idx, " ; ".join(parts), meta, "c08w/%s/%s/%s/%s" % (dl, to, ex, pre0)))
                     idx += 1
     return cases
 
@@ -302,10 +310,17 @@ def judge_poll(prop_c08, prop_c09, op, spec, pre, post, pending, vs, obs):
     if ret == EPIPE:
         V(prop_c09, "epipe-while-pollable", "EPIPE although a requested stream is still pollable")
         return
+    bound = min(t0 + to if to >= 0 else INF, d_min if d_min is not None else INF)
+    if ret == -4 and any(t[0] == "poll" and t[7] & 1 for t in op.get("tr", [])):
+        # a signal interrupted the wait (injected, some virtual ms into it): reporting the
+        # interruption is fine, blocking past the bound because of it is not
+        obs["interrupted_polls"] = obs.get("interrupted_polls", 0) + 1
+        if t1 > bound:
+            V(prop_c08, "interrupted-poll-blocks-past-bound", "interrupted poll returned at %d, bound %s" % (t1, bound))
+        return
     if ret < 0:
         V(prop_c09, "unexpected-error:%d" % ret, "poll returned %d" % ret)
         return
-    bound = min(t0 + to if to >= 0 else INF, d_min if d_min is not None else INF)
     if t1 > bound:
         which = "deadline" if (d_min is not None and d_min == bound) else "timeout"
         V(prop_c08, "blocks-past-%s" % which, "returned at %d, bound %s (timeout %s, earliest deadline %s)" % (t1, bound, to, d_min))
@@ -403,6 +418,12 @@ def judge_wait(op, hs_pre, hs_post, vs, obs):
             V("timeout-late", "ETIMEDOUT at %d, bound %d" % (t1, t0 + eff))
         if end is not None and end <= t1:
             V("timeout-although-exited", "ETIMEDOUT at %d but the child ended at %d" % (t1, end))
+    elif ret == -4 and any(t[0] == "poll" and t[7] & 1 for t in op.get("tr", [])):
+        obs["interrupted_waits"] = obs.get("interrupted_waits", 0) + 1
+        if eff != INFINITE and t1 > t0 + eff:
+            V("interrupted-late", "interrupted wait returned at %d, bound %d" % (t1, t0 + eff))
+    elif ret < 0:
+        V("unexpected-error:%d" % ret, "wait returned %d" % ret)
     elif ret >= 0:
         obs["wait_statuses"] += 1
         if end is None:
